@@ -134,7 +134,10 @@ def run(ctx, calls=CALLS, module=MODULE, corpus=CORPUS, gen_kw=None, extra=None,
         "C02_left_product_dtype_model); NumPy's promote_types is a third opinion in treecheck.observations",
         "a recorded clause of the indexing step explains a code/spec difference of A[ix, ix] entry by entry "
         "(treecheck.getitem_attribution): getitem-array-pair-outer only if the returned operator IS the outer selection, "
-        "sliced-repeated-index only for entries in a repeated row / column position",
+        "sliced-repeated-index only for entries in a repeated row / column position; a TREE-level clause of the operand only for an "
+        "entry whose source entry differs in the operand's own code-model dense matrix (codeDense = Op.td / codeDenseR = I @ A, printed "
+        "by the driver) and which inherits exactly that value (scalar / vector answers: the whole answer is NumPy indexing of that "
+        "matrix); any other differing entry is a VIOLATION whatever clauses the tree carries",
         "floating-point results are compared exactly only where every intermediate is an exactly representable integer"])
     print(json.dumps({"outcomes": cov["outcomes"], "distinct_nontrivial": cov["distinct_nontrivial"],
                       "gate": (gate or {}).get("obligations")}))
